@@ -87,7 +87,7 @@ fn dispatcher(sess: Sess, pool: AsyncifyPool, cfg: Cfg, t: usize, serials: Arc<V
             let dt = if m == "iour" { DriverType::IoUring } else { DriverType::Poll };
             let mut p = Proactor::builder().driver_type(dt).capacity(8).reuse_thread_pool(pool.clone()).build().expect("build proactor");
             let mut keys: Vec<(usize, Key<BlkOp>)> = vec![];
-            let mut pop = |p: &mut Proactor, keys: &mut Vec<(usize, Key<BlkOp>)>, wait: u64| {
+            let pop = |p: &mut Proactor, keys: &mut Vec<(usize, Key<BlkOp>)>, wait: u64| {
                 let _ = p.poll(Some(Duration::from_millis(wait)));
                 let mut rest = vec![];
                 for (j, k) in keys.drain(..) {
